@@ -1,12 +1,11 @@
 ---- MODULE MC_SessEmpty ----
-(* Family "empty": SetObj v ; NewEmpty ; CopyTo ; FreshObj ; CopyFrom  for every shape and value.     *)
-(* Serves C03 C04 C07(to) C20; Impl => Contract is evaluated on every transition (modelviol).        *)
+(* Family "empty": SetObj v ; NewEmpty ; CopyTo ; FreshObj ; CopyFrom for every shape and value.  Serves C03 C04 C07(to) C20. *)
 EXTENDS Shapes, TLC, Json
-CONSTANT MCDeep
+CONSTANTS MCDeep, MCLong
 VARIABLES sh, M, obj, tf, dg, pn, pc, hist, viol, aux
 MCShapes == AllSessionShapes
-MCScript == <<"SetObj", "NewEmpty", "CopyTo", "FreshObj", "CopyFrom">>
+MCScript == IF MCLong THEN <<"SetObj", "NewEmpty", "CopyTo", "FreshObj", "CopyFrom">> ELSE <<"SetObj", "NewEmpty", "CopyTo", "FreshObj", "CopyFrom">>
 MCProps == {"C03", "C04", "C07", "C20"}
 ASSUME PrintT("SHAPES " \o ToJson(MCShapes))
-INSTANCE Session WITH Shapes <- MCShapes, Script <- MCScript, Deep <- MCDeep, Props <- MCProps
+INSTANCE Session WITH Shapes <- MCShapes, Script <- MCScript, Deep <- MCDeep, Props <- MCProps, ObjMode <- "all", RawMode <- "plans"
 ====
